@@ -422,3 +422,9 @@ def r6(ctx, R):
 def r7(ctx, R):
     from . import c06
     c06.r1(ctx, R)
+
+
+@rule('C01', 'C01.R8', 'the collocation problem that is solved is the configured one: the sweeper builds its collocation object from ALL its parameters and CollBase requests exactly that node family / quadrature type / node count (shared with C05.R1)', floor=4)
+def r8(ctx, R):
+    from . import c05
+    c05.r1(ctx, R)
